@@ -88,4 +88,16 @@ CHECKS = {
                 "by the typed decoder with the generated configuration, compared on MetaObject, ObjectReference, ServiceInfo",
         "technique": "Lean 4 proof (stability by induction on fuel for all inputs + round trip => prefix rejection) + differential correspondence at every cut",
     },
+    "C07": {
+        "text": "partial: Lean 4 theorems for every input — limits precede allocations (ReadString, reflection decoder and "
+                "capability map counts <= 4096, negative sizes refused, an oversized message costs exactly its 28 header "
+                "bytes, accepted payloads <= limit), the signature-driven reader returns exactly the bytes it consumed "
+                "(result never larger than the input, by induction on the stack depth for all inputs); refutation "
+                "witnesses for the places where the code violates the property (generated readers allocate the wire count, "
+                "zero-size element loops); every entry point is additionally run on hostile inputs in child processes with "
+                "memory/time measurement and compared with the model's outcome class",
+        "note": "real time/memory are measured, not proved; absence of panics in the parser callbacks is compared on samples; "
+                "three open known findings (exponential signature parser, generated readers, zero-size loops)",
+        "technique": "Lean 4 proof (bounds and exactness for all inputs; counter-example witnesses) + regenerated tie lemmas + child-process resource measurement",
+    },
 }
